@@ -184,6 +184,20 @@ def check_songdir(world, names, order, ignore_dup, slash, paths):
             o0 = outcome(lambda: title_of(simfile.opendir(path)[0]))
             if o0 != want_open:
                 fails.append({"clause": "opendir without a filesystem argument does not open the native directory's simfile", "expected": want_open, "observed": o0, **tag})
+        # the same directory named relative to the current directory (native filesystem)
+        if fsname == "nat" and order == 0 and not slash:
+            cwd = os.getcwd()
+            try:
+                os.chdir(os.path.dirname(base))
+                leaf = os.path.basename(base)
+                for rel in (leaf, "./" + leaf, leaf + "/", "../" + os.path.basename(os.path.dirname(base)) + "/" + leaf):
+                    ab = lambda p_: None if p_ is None else os.path.normpath(os.path.abspath(p_))  # noqa: E731
+                    dr = outcome(lambda: (lambda d_: (ab(d_.sm_path), ab(d_.ssc_path), title_of(d_.open()) if chosen else None))(SimfileDirectory(rel, filesystem=fsobj, ignore_duplicate=ignore_dup)))
+                    if dr != ("ok", (want_sm, want_ssc, want_open[1] if chosen else None)):
+                        fails.append({"clause": "a directory named relative to the current directory gives different answers", "expected": [want_sm, want_ssc, want_open], "observed": dr, "spelling": rel, **tag})
+                        break
+            finally:
+                os.chdir(cwd)
         # opendir returns the same simfile and path (it never ignores duplicates)
         if expected_dir(listing, False)[0] == "ok":
             od = outcome(lambda: (lambda r: (title_of(r[0]), norm(fsname, r[1])))(simfile.opendir(path, filesystem=fsobj)))
@@ -281,6 +295,17 @@ def check_pack(world, children, order, ignore_dup, strict, slash, paths, encodin
             continue
         if sp.name != "Pack":
             fails.append({"clause": "pack name is not the directory name", "expected": "Pack", "observed": sp.name, **tag})
+        if fsname == "nat" and order == 0 and not slash:
+            cwd = os.getcwd()
+            try:
+                os.chdir(base)
+                for rel in ("Pack", "./Pack", "Pack/"):
+                    pr = outcome(lambda: (lambda p_: ([os.path.normpath(os.path.abspath(x)) for x in p_.simfile_dir_paths], p_.name))(SimfilePack(rel, filesystem=fsobj, ignore_duplicate=ignore_dup)))
+                    if pr != ("ok", (want_paths, "Pack")):
+                        fails.append({"clause": "a pack named relative to the current directory gives different answers", "expected": [want_paths, "Pack"], "observed": pr, "spelling": rel, **tag})
+                        break
+            finally:
+                os.chdir(cwd)
         got_open = drain(sp.simfiles(**kw), title_of)
         again = drain(sp.simfiles(**kw), title_of)
         if again != got_open:
@@ -518,7 +543,7 @@ def explore(run):
         f"reuse: one SimfileDirectory / SimfilePack object opened along every history of <= {4 if run.thorough() else 3} calls over (default, strict=False, strict=True) on 3 trees (every answer compared with a fresh object's); "
         f"song directories: every subset of <= {maxn} names from {NAMES} x every listing order of the entries x ignore_duplicate x trailing slash; "
         f"packs: every multiset of <= {pmax} children from {CHILD_KINDS} x every listing order (applied to the pack and to every song directory) x ignore_duplicate x strict x trailing slash x explicit encoding (when a CP932 file is present); "
-        "every tree on MemoryFS and on a native temporary directory. A state is one tree; non-trivial = at least two simfiles / two children."
+        "every tree on MemoryFS and on a native temporary directory (there also named relative to the current directory: bare, ./name, name/, ../parent/name). A state is one tree; non-trivial = at least two simfiles / two children."
     )
     run.assumptions = [
         "listing order is an environment answer chosen through the filesystem seam (mc/fsseam.py); paths are compared after normalisation",
